@@ -198,6 +198,39 @@ func runC03(c *fw.Ctx) {
 			}
 		})
 	}
+	// huge tensors (>= 16384 and >= 65536 elements; leading sizes that are not multiples of 8 / 32 / the element count over 8)
+	huge := [][]int{{100, 200}, {33, 500}, {129, 128}, {4097, 4}, {16385}, {100, 700}, {70001}, {9, 90, 90}, {67, 33, 31}}
+	if c.Quick() {
+		huge = huge[:6]
+	}
+	for _, shape := range huge {
+		for _, op := range []string{"scale", "tanh", "add", "sub", "mul", "elmax", "gt", "pow"} {
+			shape, op := shape, op
+			c.Case(func(k *fw.K) {
+				a := RandT(k.Rng, shape, -2, 2)
+				in := ref.Instr{Op: op, F: 2}
+				xs := []*ref.T{a}
+				if _, binary := ref.Arith[op]; binary || op == "elmax" || op == "gt" {
+					xs = append(xs, RandT(k.Rng, shape, -2, 2))
+				}
+				k.Case = map[string]any{"op": op, "shape": shape, "elements": ref.Prod(shape)}
+				k.Key("%s/%s/huge", op, shapeKey(shape))
+				k.Count("huge_tensor_cases", 1)
+				if msg := forwardCase(in, xs, false); msg != "" {
+					k.Failf("%s on shape %v (%d elements): %s", op, shape, ref.Prod(shape), msg)
+				}
+			})
+		}
+	}
+	for i := 0; i < c.Pick(600, 6000); i++ { // one long dimension (127..4097), incl. broadcasting a short operand along it
+		c.Case(func(k *fw.K) {
+			shape, _ := LongShape(k.Rng, 3, 4097)
+			srcs := BroadcastSources(shape)
+			sb := srcs[k.Rng.Intn(len(srcs))]
+			k.Count("long_dimension_cases", 1)
+			c03Arith1(k, c03Arith[k.Rng.Intn(4)], shape, sb, k.Rng.Intn(2))
+		})
+	}
 	// sampled high-rank pairs
 	for i := 0; i < c.Pick(4000, 40000); i++ {
 		c.Case(func(k *fw.K) {
